@@ -45,9 +45,31 @@ StateIs(rule, k, v) == \E j \in 1..Len(rule.state) : rule.state[j] = <<k, v>>
 InSeq(x, s) == \E j \in 1..Len(s) : s[j] = x
 PlainText(v) == RefPlain(v.parts)        \* the plain form a string pattern is matched against
 
+\* ---- rule attributes ---------------------------------------------------------------------
+\* rule.attrs == Seq([name, kind |-> "int" | "str" | "level", n (number or level rank), s (text)])
+\* condition [t |-> "attr", k |-> attribute name, s |-> operator, v |-> configured value as text]
+\* numbers and severity levels compare by order, strings by equality; an attribute the rule does not
+\* have never matches
+LevelRank(t) == CASE t = <<105,110,102,111,114,109,97,116,105,111,110,97,108>> -> 1 [] t = <<108,111,119>> -> 2
+                  [] t = <<109,101,100,105,117,109>> -> 3 [] t = <<104,105,103,104>> -> 4
+                  [] t = <<99,114,105,116,105,99,97,108>> -> 5 [] OTHER -> 0
+AttrRel(op, a, b) == CASE op = "eq" -> a = b [] op = "ne" -> a # b [] op = "gte" -> a >= b [] op = "gt" -> a > b
+                   [] op = "lte" -> a <= b [] OTHER -> a < b
+AttrCond(c, rule) ==
+    LET J == {j \in 1..Len(rule.attrs) : rule.attrs[j].name = c.k} IN
+    IF J = {} THEN FALSE
+    ELSE LET a == rule.attrs[CHOOSE j \in J : TRUE] IN
+         CASE a.kind = "int" -> AttrRel(c.s, a.n, DecVal(c.v))
+           [] a.kind = "level" -> AttrRel(c.s, a.n, LevelRank(c.v))
+           [] OTHER -> IF c.s = "eq" THEN a.s = c.v ELSE a.s # c.v
+\* the value a contains_detection_item condition looks for: a string pattern or a number, as written
+ValueIs(v, text) == \/ (v.t \in {"str", "cased"} /\ v.parts = ParseStr(text))
+                    \/ (v.t = "num" /\ text # <<>> /\ (\A i \in 1..Len(text) : IsDigit(text[i])) /\ v.num = <<DecVal(text), 1>>)
+
 \* ---- rule conditions ---------------------------------------------------------------------
 \* [t |-> "logsource", cat, prod, svc] | [t |-> "contains_field", f] | [t |-> "is_sigma_rule"]
 \* | [t |-> "is_sigma_correlation_rule"] | [t |-> "tag", s] | [t |-> "applied", s] | [t |-> "state", k, v]
+\* | [t |-> "attr", k, s, v] | [t |-> "contains_item", k (field), v (value text)]
 RuleCond(c, rule) ==
     CASE c.t = "logsource" -> /\ (c.cat = <<>> \/ c.cat = rule.ls.cat)
                               /\ (c.prod = <<>> \/ c.prod = rule.ls.prod)
@@ -57,6 +79,9 @@ RuleCond(c, rule) ==
       [] c.t = "is_sigma_correlation_rule" -> rule.corr
       [] c.t = "tag" -> InSeq(c.s, rule.tags)
       [] c.t = "applied" -> InSeq(c.s, rule.applied)
+      [] c.t = "attr" -> AttrCond(c, rule)
+      [] c.t = "contains_item" -> \E j \in 1..Len(rule.items) :
+                                    rule.items[j].field = c.k /\ \E i \in 1..Len(rule.items[j].vals) : ValueIs(rule.items[j].vals[i], c.v)
       [] OTHER -> StateIs(rule, c.k, c.v)
 
 \* ---- detection item conditions -----------------------------------------------------------
